@@ -59,8 +59,7 @@ theorem oversize_undeclared_400 (env : Env) (caller : Caller) (r : Req) (h : r.b
   rw [if_pos (by rw [limitFor_eq_spec]; exact h)]
 
 /-- **C15(c)** a body of exactly the limit or less is accepted and relayed intact -/
-theorem at_limit_relayed_intact (env : Env) (caller : Caller) (r : Req) (h : r.body.length ≤ specLimit r)
-    (hs : sigInput r.method r.body (signedHeaders r (ownedHeaders env caller r)) r.uri ≠ none) :
+theorem at_limit_relayed_intact (env : Env) (caller : Caller) (r : Req) (h : r.body.length ≤ specLimit r) :
     ∃ u, forwardStage mac env caller r = .forward u ∧ u.body = r.body := by
   unfold forwardStage
   simp only
@@ -74,14 +73,9 @@ theorem at_limit_relayed_intact (env : Env) (caller : Caller) (r : Req) (h : r.b
     | some gk =>
       obtain ⟨g, k⟩ := gk
       simp only
-      cases hsi : sigInput r.method r.body
-          (signedHeaders r (insert dateHeader env.now (insert claimsHeader (claimsValue caller.elevated) (ofWire r.headers)))) r.uri with
-      | none => exact absurd hsi hs
-      | some si =>
-        simp only
-        by_cases hx : isHexKey k = true
-        · rw [if_pos hx]; exact ⟨_, rfl, rfl⟩
-        · rw [if_neg hx]; exact ⟨_, rfl, rfl⟩
+      by_cases hx : isHexKey k = true
+      · rw [if_pos hx]; exact ⟨_, rfl, rfl⟩
+      · rw [if_neg hx]; exact ⟨_, rfl, rfl⟩
 
 /-- **C15(d)** the large limit applies exactly to the two exempt method/URL pairs, compared
 case-insensitively on the URL -/
